@@ -77,12 +77,13 @@ def run(R):
             old = {s["d"][0] for b in hv.blocks for s in b["stmts"] if s["rv"]["k"] == "use" and s["rv"]["a"][0] in ("cp", "mv") and s["rv"]["a"][1] == [tup, ".0"]}
             new = {s["d"][0] for b in hv.blocks for s in b["stmts"] if s["rv"]["k"] == "use" and s["rv"]["a"][0] in ("cp", "mv") and s["rv"]["a"][1] == [tup, ".1"]}
             for f in ("live_time", "received_payment_count"):
-                gd = CmpGuard(lambda b, f=f: {d for d, r, p in field_reads(b, f, roots=new)},
-                              lambda b, f=f: {d for d, r, p in field_reads(b, f, roots=old)}, "Ge",
+                # (the field may be read through a reference to a part of the quote handed to a helper: `&new.quoting_metrics`)
+                gd = CmpGuard(lambda b, f=f: {d for d, r, p in field_reads(b, f, roots=Taint(b).closure(new))},
+                              lambda b, f=f: {d for d, r, p in field_reads(b, f, roots=Taint(b).closure(old))}, "Ge",
                               "new.%s >= old.%s" % (f, f), close=False)
-                R.gate_reject("C13.history." + f, hv, RetSink("true"), [gd], descr="a later quote reporting less %s is flagged (returns false)" % f)
+                R.gate_reject("C13.history." + f, hv, RetSink("true", computed=True), [gd], descr="a later quote reporting less %s is flagged (returns false)" % f)
                 # ... and every `true` is answered only after that comparison held (no escape hatch placed before it)
-                R.gate("C13.history." + f + ".always", hv, RetSink("true"), [[gd]], descr="historical_verify is true only after new.%s >= old.%s was established" % (f, f))
+                R.gate("C13.history." + f + ".always", hv, RetSink("true", computed=True), [[gd]], descr="historical_verify is true only after new.%s >= old.%s was established" % (f, f))
 
     # (5) signer
     cq = R.body("C13.signer", "ant_node::quote::<impl ant_node::node::Node>::create_quote_for_storecost")
@@ -141,6 +142,21 @@ def verify_for_rules(R, pfx):
     # payee membership
     member = CallGuard(["*::contains"], ("true",), "payees().contains(peer)")
     n_, acc, rej = member.edges(vf)
+    if not rej:
+        # `payees().contains(peer)` written out: `…iter()….any(|payee| payee == peer_id)`
+        from rules import closures_passed, _captured_seeds
+        peer = Taint(vf, through="all").closure(PL(vf, 1))
+        tr_ = Tracker(vf)
+        for blk in vf.blocks:
+            t = blk["term"]
+            if t["k"] == "call" and not blk["cleanup"] and (t.get("ngen") or "").endswith("iterator::Iterator::any") and len(t.get("d") or []) == 1:
+                for cl in closures_passed(F, vf, t):
+                    prep(cl)
+                    cap = Taint(cl, through="all").closure(_captured_seeds(vf, cl, peer))
+                    if any(cs["op"] == "Eq" and ((op_local(cs["a"]) in cap) != (op_local(cs["b"]) in cap)) and returned_directly(cl, cs) for cs in compare_sites(cl)):
+                        tr_.seed_bool(t["d"][0], True)
+        tr_.run()
+        acc, rej = tr_.accept, tr_.reject
     g = cfg_of(vf)
     trues = set(RetSink("true").blocks(vf)) | {b["id"] for b in vf.blocks if b["term"]["k"] == "call" and (b["term"]["ngen"] or "").endswith("iterator::Iterator::all")}
     ok = bool(rej) and all(not (g.reach((d,)) & trues) for _, d in rej)
@@ -250,12 +266,11 @@ def expiry_rules(R, pfx="C13"):
                    descr="future-dated quote is reported expired (through the age helper's failure)")
     pe = R.body(pfx + ".expiry.proof", POP + "::has_expired")
     if pe is not None:
-        R.must_call(pfx + ".expiry.proof", POP + "::has_expired", ["*Iterator::any", "core::iter::traits::iterator::Iterator::any"], "a proof is expired if any quote is")
-        inner = [c for c in F.item(POP + "::has_expired") if c.kind == "closure"]
-        ok = any(any(x["ncallee"] == PQ + "::has_expired" for x in c.calls) for c in inner)
-        if not ok:
-            R.viol(pfx + ".expiry.proof", "any-expired", "ProofOfPayment::has_expired does not test PaymentQuote::has_expired of its quotes", pe, pe.lines[0])
-        R.inst(pfx + ".expiry.proof.any", "K1 must-call", "any(quote.has_expired())", len(inner), ok)
+        # a proof is unexpired only if every one of its quotes is: `.any(|q| q.has_expired())` or the loop that returns true on the first
+        from rules import ForallGuard
+        R.gate(pfx + ".expiry.proof", pe, RetSink("false", computed=True),
+               [[ForallGuard("peer_quotes", [PQ + "::has_expired"], ("false",), "every quote of the proof has has_expired() false")]],
+               descr="ProofOfPayment::has_expired is false only if no quote has expired")
 
 
 def quote_binding_rules(R, pfx="C13"):
